@@ -2111,6 +2111,101 @@ def align_sites(tu, fns):
     return out
 
 
+def _is_one(tu, e, depth=0):
+    e = tu.strip(e, casts=True)
+    if e is None or depth > 3:
+        return False
+    while e.get('kind') in ('CXXFunctionalCastExpr', 'CStyleCastExpr', 'CXXStaticCastExpr', 'ParenExpr', 'ImplicitCastExpr', 'CXXConstructExpr',
+                            'MaterializeTemporaryExpr', 'InitListExpr') and len(tu.kids(e)) == 1:
+        e = tu.strip(tu.kids(e)[0], casts=True)
+        if e is None:
+            return False
+    if e.get('kind') in ('IntegerLiteral', 'FloatingLiteral'):
+        try:
+            return float(e.get('value')) == 1.0
+        except (TypeError, ValueError):
+            return False
+    cv = tu.sd(e).get('cv')
+    if cv is not None:
+        try:
+            return float(cv) == 1.0
+        except (TypeError, ValueError):
+            return False
+    return False
+
+
+def rcpdet_sites(tu, fns):
+    """For every function given that calls a member `det()`: where does the determinant go?  -> (function, node, verdict, text) with verdict
+    'bad' (its reciprocal is formed: `1 / det`, `rcp(det)`, also inside a callee that receives it), 'ok' (it only ever divides a non-constant
+    numerator) or 'skip'."""
+    out = []
+    for f in fns:
+        body = tu.body(f)
+        if f.get('dep') or body is None:
+            continue
+        dets = [x for x in tu.walk(body) if x.get('kind') in ('CXXMemberCallExpr', 'CallExpr') and
+                (tu.sd(x).get('q', '').endswith('::det') or tu.sd(x).get('q', '') == 'rkverif_c06::det_of')]
+        if not dets:
+            continue
+        res = {'bad': [], 'ok': [], 'skip': []}
+
+        def use(fn, node, depth):
+            """classify the use of the value `node` (an expression inside fn)"""
+            cur = node
+            par = tu.par(cur)
+            while par is not None and par.get('kind') in ('ImplicitCastExpr', 'ParenExpr', 'MaterializeTemporaryExpr', 'ExprWithCleanups',
+                                                          'CXXBindTemporaryExpr', 'CXXFunctionalCastExpr', 'CXXStaticCastExpr', 'CStyleCastExpr'):
+                cur, par = par, tu.par(par)
+            if par is None:
+                res['skip'].append((node, 'use not recognised'))
+                return
+            k = par.get('kind')
+            if k == 'VarDecl':
+                track(fn, par['id'], depth)
+                return
+            op = _opname(tu, par) if k in ('BinaryOperator', 'CXXOperatorCallExpr') else None
+            if k == 'BinaryOperator' and par.get('opcode') == '/':
+                ks = tu.kids(par)
+                if ks[1].get('id') == cur.get('id'):
+                    if _is_one(tu, ks[0]):
+                        res['bad'].append((par, '`%s`' % tu.show(par)[:60]))
+                    else:
+                        res['ok'].append((par, 'divides `%s`' % tu.show(ks[0])[:40]))
+                    return
+            if k == 'CallExpr' and _callee_name(tu, par) in ('rcp', 'rcp_safe'):
+                res['bad'].append((par, '`%s`' % tu.show(par)[:60]))
+                return
+            if k in ('CallExpr', 'CXXOperatorCallExpr', 'CXXMemberCallExpr', 'CXXConstructExpr') and depth < 4:
+                cf = tu.callee_fn(par)
+                sd, obj, args = tu.call_parts(par)
+                idx = [i for i, a in enumerate(args) if a.get('id') == cur.get('id')]
+                if cf is not None and tu.body(cf) is not None and idx and len(cf.get('params', [])) > idx[0]:
+                    # a division operator with the determinant as the divisor: what the callee does with it decides
+                    track(cf, cf['params'][idx[0]].get('id'), depth + 1)
+                    return
+            res['skip'].append((par, 'use `%s` not followed' % tu.show(par)[:50]))
+
+        def track(fn, vid, depth):
+            refs = [x for x in tu.walk(tu.body(fn)) if x.get('kind') == 'DeclRefExpr' and x.get('referencedDecl', {}).get('id') == vid]
+            if not refs:
+                res['skip'].append((tu.body(fn), 'value not used'))
+            for r in refs:
+                use(fn, r, depth)
+        for d in dets:
+            use(f, d, 0)
+        if res['bad']:
+            n, t = res['bad'][0]
+            out.append((f, n, 'bad', 'the reciprocal of the determinant is formed (%s at %s) and then multiplied with the adjoint: for a '
+                        'well-conditioned matrix with small entries (3x3 float, entries around 2^-45) det is still representable and '
+                        'adjoint / det is an ordinary number, but 1 / det overflows to inf and the inverse becomes inf / NaN - M * inverse(M), '
+                        'rcp(A) * A and xfmNormal are no longer the identity / the inverse transpose' % (t, tu.loc(n))))
+        elif res['ok'] and not res['skip']:
+            out.append((f, res['ok'][0][0], 'ok', 'the determinant only ever divides the adjoint\'s components (%d division(s))' % len(res['ok'])))
+        else:
+            out.append((f, (res['skip'] or res['ok'] or [(body, '')])[0][0], 'skip', (res['skip'] or [(None, 'no division by the determinant found')])[0][1]))
+    return out
+
+
 def check_structure(ctx, tu):
     RP, RT, RA, RC = 'R-C06-pole', 'R-C06-transl', 'R-C06-align', 'R-C06-arc'
     ctx.describe(RC, 'acos / asin in the transform headers is only applied to a value that a branch condition or a clamp keeps inside '
@@ -2121,8 +2216,14 @@ def check_structure(ctx, tu):
                      'linear part (inverse transpose) applied to the vector, independent of p')
     ctx.describe(RA, 'no aligned SIMD load/store intrinsic in rkcommon/math on an object whose type declares no alignment (vec3fa and the '
                      'spaces built from it are padded, not aligned)')
+    RR = 'R-C06-range'
+    ctx.describe(RR, 'inverse() divides the adjoint by the determinant; it never forms the reciprocal of the determinant (1 / det, rcp(det)), '
+                     'directly or inside the division operator it uses: for an n x n matrix with entries of size s the determinant has size '
+                     's^n and its reciprocal s^-n, which overflows for well-conditioned matrices whose inverse (size 1/s) is representable')
     pure = list(_hdr_fns(tu, files=PURE_HEADERS))
+    inv = [f for f in pure if f['q'].split('::')[-1] == 'inverse' and not f.get('dep')]
     for R, sites, what, keyf in (
+            (RR, rcpdet_sites(tu, inv), 'inverse() instantiations', 'reciprocal-of-determinant'),
             (RP, pole_sites(tu, pure), 'division by sin/cos expressions', 'pole-in-angle-domain'),
             (RT, transl_sites(tu, pure), 'xfmVector / xfmNormal overloads taking an affine space', 'reads-translation'),
             (RA, align_sites(tu, list(_hdr_fns(tu, prefix=MATH_HEADERS_PREFIX))), 'aligned load/store intrinsics', 'aligned-access-to-unaligned-type'),
@@ -2141,14 +2242,15 @@ def check_structure(ctx, tu):
                 ctx.ok(R, inst, 'not decided here (%s)' % why, tu.fn_loc(f), nontrivial=False)
         if not sites:
             ctx.ok(R, 'transform headers', 'no %s in the parsed functions' % what, PURE_HEADERS[0], nontrivial=False)
+    ctx.floor(RR, len(rcpdet_sites(tu, inv)), 2, 'instantiated LinearSpace2/3::inverse() in %s' % SHAPE_DRIVER)
     ctx.floor(RT, sum(1 for s_ in transl_sites(tu, pure)), 2, 'xfmVector / xfmNormal overloads for affine spaces (template patterns, AffineSpace.h)')
     # self-check on the driver's own examples
     own = [f for f in tu.functions.values() if f['q'].startswith('rkverif_c06::') and tu.body(f) is not None]
     got = {}
-    for f, n, v, why in pole_sites(tu, own) + transl_sites(tu, own) + align_sites(tu, own) + arc_sites(tu, own):
+    for f, n, v, why in pole_sites(tu, own) + transl_sites(tu, own) + align_sites(tu, own) + arc_sites(tu, own) + rcpdet_sites(tu, own):
         got.setdefault(f['q'].split('::')[-1], set()).add(v)
     want = {'versine_pole': {'bad'}, 'versine_ok': {'ok'}, 'xfmVector': {'bad'}, 'xfmNormal': {'ok'}, 'load_padded': {'bad'},
-            'load_aligned_local': {'ok'}, 'angle_unclamped': {'bad'}, 'angle_guarded': {'ok'}}
+            'load_aligned_local': {'ok'}, 'angle_unclamped': {'bad'}, 'angle_guarded': {'ok'}, 'inverse_by_reciprocal': {'bad'}, 'inverse_by_division': {'ok'}}
     got = {k: v for k, v in got.items() if k in want}
     if got != want:
         ctx.broken('R-C06-pole/transl/align self-check: verdicts on %s are %s, expected %s' % (SHAPE_DRIVER, got, want))
